@@ -230,7 +230,13 @@ func (g *G) genSWR(id string) *History {
 	life := pick(g, int64(0), 1, 10)
 	swr := pick(g, int64(30), 60, 3600)
 	first := Hdr{{"Date", dateAt(0, 0)}, {"Cache-Control", fmt.Sprintf("max-age=%d, stale-while-revalidate=%d", life, swr) +
-		pick(g, "", "", "", `, no-cache="ETag"`, `, no-cache="Last-Modified"`, `, no-cache="etag, last-modified, X-New"`)}}
+		pick(g, "", "", "", `, no-cache="ETag"`, `, no-cache="Last-Modified"`, `, no-cache="etag, last-modified, X-New"`) +
+		// with stale-if-error the background work consults the age of the response it was handed when the
+		// revalidation fails, while the foreground is still finishing the response it serves
+		pick(g, "", "", ", stale-if-error=600")}}
+	if g.chance(0.3) {
+		h.Logger = "debug"
+	}
 	if g.chance(0.7) {
 		first = append(first, [2]string{"Etag", `"v1"`})
 	}
@@ -358,6 +364,9 @@ func (g *G) genFaithful(id string) *History {
 		rp.Proto = "HTTP/1.0"
 	case 3:
 		rp.Proto = "HTTP/1.0"
+	case 4:
+		// a response that arrived over HTTP/2: the same fields must not be stored (the Proxy-* ones are legal there)
+		rp.Proto = "HTTP/2.0"
 	}
 	var rh Hdr
 	if g.chance(0.3) {
